@@ -43,7 +43,11 @@ void yield() { thr[cur].wkind = W_NONE; sched_point(); }
 void wait_until(int *c, int n) { Thr &T = thr[cur]; T.wkind = W_UNTIL; T.wobj = c; T.warg = n; sched_point(); T.wkind = W_NONE; }
 void mutex_lock(mutex_state *m) { Thr &T = thr[cur]; T.wkind = W_MUTEX; T.wobj = m; sched_point(); if (m->held) fail("shim: mutex not free on acquire"); m->held = cur + 1; T.wkind = W_NONE; }
 void mutex_unlock(mutex_state *m) { if (m->held != (unsigned) cur + 1) fail("unlock of a mutex not held by the calling thread"); m->held = 0; }
-void cv_wait(void *cv, mutex_state *m) { if (vf_no_park) fail("this request must be granted without waiting"); Thr &T = thr[cur]; m->held = 0; T.wkind = W_CV; T.wobj = cv; T.wmtx = m; T.notified = false; extern void on_park(int); on_park(cur); sched_point(); m->held = cur + 1; T.wkind = W_NONE; }
+void cv_wait(void *cv, mutex_state *m) {
+#ifdef VF_RACY_WAIT_YIELD
+  yield();   // racy configuration of the model: a scheduling point between the evaluation of the wait predicate and blocking
+#endif
+  if (vf_no_park) fail("this request must be granted without waiting"); Thr &T = thr[cur]; m->held = 0; T.wkind = W_CV; T.wobj = cv; T.wmtx = m; T.notified = false; extern void on_park(int); on_park(cur); sched_point(); m->held = cur + 1; T.wkind = W_NONE; }
 void cv_notify_all(void *cv) { thr[cur].wkind = W_NONE; sched_point(); for (int t = 0; t < nthr; t++) if (thr[t].wkind == W_CV && thr[t].wobj == cv) thr[t].notified = true; }
 void cv_notify_one(void *cv) { thr[cur].wkind = W_NONE; sched_point(); for (int t = 0; t < nthr; t++) if (thr[t].wkind == W_CV && thr[t].wobj == cv && !thr[t].notified) { thr[t].notified = true; break; } }
 extern "C" void vf_on_park(unsigned t);
